@@ -98,6 +98,10 @@ type Req struct {
 	completed bool    // op already performed by a rendezvous partner
 	recvVal   any
 	recvOK    bool
+	// buffered channel full with parked senders: the receive pulls the first
+	// parked sender's value into the buffer, as the Go runtime does
+	pushFrom   *Thread
+	sendNative func()
 	// Choose
 	N      int
 	Result int
@@ -124,6 +128,14 @@ type Thread struct {
 	Parent    *Thread
 	SpawnStep int
 	DoneStep  int
+	parkSeq   int64
+}
+
+// ParkEvent records a thread arriving at a blocking select (no default arm).
+type ParkEvent struct {
+	Thread *Thread
+	Step   int
+	NCases int
 }
 
 // ChanEvent is one completed channel operation (for monitors).
@@ -202,7 +214,9 @@ type Sched struct {
 	envChain  uint64
 	envParent *Thread
 	ChanLog   []ChanEvent
+	ParkLog   []ParkEvent
 	atomics   map[uintptr]*Obj
+	parkCounter int64
 	Data      any // driver-owned
 }
 
@@ -221,6 +235,26 @@ func Self() *Thread {
 
 func (s *Sched) Now() int64           { return s.now }
 func (s *Sched) IsEnabled(t *Thread) bool { return s.enabled(t) }
+
+// ParkedOnSend reports whether t is blocked on a channel send whose channel
+// is full (a plain send or a select none of whose arms is ready).
+func (s *Sched) ParkedOnSend(t *Thread) bool {
+	r := t.req
+	if t.done || r == nil || r.completed || s.enabled(t) {
+		return false
+	}
+	switch r.Kind {
+	case OpSend:
+		return true
+	case OpSelect:
+		for _, c := range r.cases {
+			if c.isSend() {
+				return true
+			}
+		}
+	}
+	return false
+}
 func (s *Sched) Step() int            { return int(s.steps) }
 func (s *Sched) Threads() []*Thread   { return s.threads }
 func (s *Sched) Aborting() bool       { return s.aborting }
@@ -345,6 +379,11 @@ func (s *Sched) Point(r *Req) {
 	}
 	t := s.cur
 	t.req = r
+	if r.Kind == OpSelect && !r.deflt {
+		s.ParkLog = append(s.ParkLog, ParkEvent{Thread: t, Step: int(s.steps), NCases: len(r.cases)})
+	}
+	s.parkCounter++
+	t.parkSeq = s.parkCounter
 	s.back <- struct{}{}
 	<-t.gate
 	if s.aborting {
@@ -513,11 +552,17 @@ func startWatchdog() {
 					stuck = 0
 					continue
 				}
+				var ms runtime.MemStats
+				runtime.ReadMemStats(&ms)
+				if ms.Sys > 12<<30 {
+					fmt.Fprintf(os.Stderr, "HARNESS-ERROR: memory guard: this worker uses %d MB\n", ms.Sys>>20)
+					os.Exit(2)
+				}
 				n := wdSteps.Load()
 				if n == last {
 					stuck++
-					if stuck >= 5 {
-						fmt.Fprintf(os.Stderr, "HARNESS-ERROR: watchdog: no scheduling step for 10s (unmodelled blocking call?) %v\n", wdInfo.Load())
+					if stuck >= 20 {
+						fmt.Fprintf(os.Stderr, "HARNESS-ERROR: watchdog: no scheduling step for 40s (unmodelled blocking call?) %v\n", wdInfo.Load())
 						buf := make([]byte, 1<<20)
 						n := runtime.Stack(buf, true)
 						os.Stderr.Write(buf[:n])
